@@ -954,6 +954,11 @@ Proof. unfold slice_from. apply In_skipn_In. Qed.
 Lemma In_slice_to {A} (x : A) l st : In x (slice_to l st) -> In x l.
 Proof. unfold slice_to. apply In_firstn_In. Qed.
 
+Lemma zlen_slice_from {A} (l : list A) st : zlen (slice_from l st) <= zlen l.
+Proof. unfold slice_from, zlen. cbv zeta. rewrite skipn_length. lia. Qed.
+Lemma zlen_slice_to {A} (l : list A) st : zlen (slice_to l st) <= zlen l.
+Proof. unfold slice_to, zlen. cbv zeta. rewrite firstn_length. lia. Qed.
+
 Lemma In_window fm s start rc x : In x (window fm s start rc) -> In x s.
 Proof.
   unfold window. cbv zeta.
@@ -964,27 +969,21 @@ Proof.
   destruct (zlen dna mod 3 =? 0); [exact H|]. destruct (fm && rc); [eapply In_slice_from|eapply In_slice_to]; exact H.
 Qed.
 
-Lemma zlen_skipn_le {A} n (l : list A) : zlen (skipn n l) <= zlen l.
-Proof. unfold zlen. rewrite skipn_length. lia. Qed.
-Lemma zlen_firstn_le {A} n (l : list A) : zlen (firstn n l) <= zlen l.
-Proof. unfold zlen. rewrite firstn_length. lia. Qed.
-
 Lemma zlen_window fm s start rc : zlen (window fm s start rc) <= zlen s.
 Proof.
   unfold window. cbv zeta.
   set (dna := if start =? 0 then s else if fm && rc then slice_to s (Z.max (zlen s - start) 0) else slice_from s start).
   assert (Hd : zlen dna <= zlen s).
-  { unfold dna. destruct (start =? 0); [lia|]. destruct (fm && rc); [apply zlen_firstn_le|apply zlen_skipn_le]. }
+  { unfold dna. destruct (start =? 0); [lia|]. destruct (fm && rc); [apply zlen_slice_to|apply zlen_slice_from]. }
   destruct (zlen dna mod 3 =? 0); [exact Hd|].
-  destruct (fm && rc); [pose proof (zlen_skipn_le (Z.to_nat (if zlen dna mod 3 <? 0 then Z.max 0 (zlen dna mod 3 + zlen dna) else Z.min (zlen dna mod 3) (zlen dna))) dna)
-                       |pose proof (zlen_firstn_le (Z.to_nat (if - (zlen dna mod 3) <? 0 then Z.max 0 (- (zlen dna mod 3) + zlen dna) else Z.min (- (zlen dna mod 3)) (zlen dna))) dna)];
-    unfold slice_from, slice_to; cbv zeta; lia.
+  destruct (fm && rc).
+  - pose proof (zlen_slice_from dna (zlen dna mod 3)). lia.
+  - pose proof (zlen_slice_to dna (- (zlen dna mod 3))). lia.
 Qed.
 
 Lemma zlen_chunks3 {A} (l : list A) : 3 * zlen (chunks3 l) <= zlen l.
 Proof.
-  induction l using list_ind3; cbn [chunks3]; rewrite ?zlen_cons, ?zlen_nil; try lia.
-  pose proof (zlen_nonneg l). lia.
+  induction l using list_ind3; simpl chunks3; unfold zlen in *; simpl length; lia.
 Qed.
 
 Lemma zlen_to_kmer_indices dna : 3 * zlen (to_kmer_indices dna) <= zlen dna.
@@ -1003,9 +1002,10 @@ Proof.
   intros Hl. unfold translate_w. cbv zeta. rewrite alphabet_width.
   pose proof (zlen_to_kmer_indices (window fm s start rc)) as H1.
   pose proof (zlen_window fm s start rc) as H2.
-  pose proof (zlen_nonneg (to_kmer_indices (window fm s start rc))) as H3.
   replace (get_array_type_width (zlen (to_kmer_indices (window fm s start rc)))) with 1; [reflexivity|].
-  unfold get_array_type_width. destruct (zlen (to_kmer_indices (window fm s start rc)) <? 2 ^ 8) eqn:E; [reflexivity|lia].
+  unfold get_array_type_width.
+  destruct (zlen (to_kmer_indices (window fm s start rc)) <? 2 ^ 8) eqn:E; [reflexivity|].
+  change (2 ^ 8) with 256 in E. lia.
 Qed.
 
 (** one byte per index reproduces the index list when every index fits a byte *)
@@ -1016,9 +1016,11 @@ Proof. vm_compute. reflexivity. Qed.
 
 Lemma tobytes_1 idx : Forall (fun i => 0 <= i < 256) idx -> tobytes 1 idx = idx.
 Proof.
+  assert (E : forall l, tobytes 1 l = flat_map (le_bytes 1) l) by reflexivity.
   induction 1 as [|i r Hi Hr IH]; [reflexivity|].
-  unfold tobytes in *. cbn [flat_map Z.to_nat Pos.to_nat Pos.iter_op Nat.add le_bytes app].
-  rewrite IH. f_equal. apply Z.mod_small. exact Hi.
+  rewrite E in *.
+  change (flat_map (le_bytes 1) (i :: r)) with ([i mod 256] ++ flat_map (le_bytes 1) r).
+  rewrite IH. cbn [app]. f_equal. apply Z.mod_small. exact Hi.
 Qed.
 
 Lemma indices_fit_byte dna : valid_dna dna -> Forall (fun i => 0 <= i < 256) (to_kmer_indices dna).
@@ -1044,19 +1046,22 @@ Proof.
   destruct fm; [rewrite translate_as_window|rewrite translate_pinned_as_window]; reflexivity.
 Qed.
 
-(** without it the answer is wrong from 256 codons on: ATG x 256, code 1, plus strand *)
+(** without it the answer is wrong from 256 codons on: ATG x 256, first code, plus strand *)
 Definition refute_long : str := concat (repeat [65; 84; 71] 256).
 Lemma dtype_refute_checks :
-  canon_strb refute_long = true /\ zlen refute_long = 768 /  str_eqb (translate_w true false (snd (fst refute_code)) refute_long 0 false)
-          (frame_plus (ncbi_tbl (fst (fst refute_code))) refute_long 0) = false /  str_eqb (translate_w false false (snd (fst refute_code)) refute_long 0 false)
-          (frame_plus (ncbi_tbl (fst (fst refute_code))) refute_long 0) = false /  zlen (translate_w false false (snd (fst refute_code)) refute_long 0 false) = 512.
+  canon_strb refute_long = true /\ zlen refute_long = 768 /\
+  str_eqb (translate_w true false (snd (fst refute_code)) refute_long 0 false)
+          (frame_plus (ncbi_tbl (fst (fst refute_code))) refute_long 0) = false /\
+  str_eqb (translate_w false false (snd (fst refute_code)) refute_long 0 false)
+          (frame_plus (ncbi_tbl (fst (fst refute_code))) refute_long 0) = false.
 Proof. vm_compute. repeat split. Qed.
 
 Lemma translate_w_unrepaired_refuted_lemma :
   exists id aa st s,
-    In (id, aa, st) new_codes /\ canon_str s /\ zlen s = 768 /    (forall fm, translate_w fm false aa s 0 false <> frame_plus (ncbi_tbl id) s 0).
+    In (id, aa, st) new_codes /\ canon_str s /\ zlen s = 768 /\
+    (forall fm, translate_w fm false aa s 0 false <> frame_plus (ncbi_tbl id) s 0).
 Proof.
-  destruct refute_checks as (H1 & _ & _). destruct dtype_refute_checks as (D1 & D2 & D3 & D4 & _).
+  destruct refute_checks as (H1 & _ & _). destruct dtype_refute_checks as (D1 & D2 & D3 & D4).
   exists (fst (fst refute_code)), (snd (fst refute_code)), (snd refute_code), refute_long.
   split.
   { replace (fst (fst refute_code), snd (fst refute_code), snd refute_code) with refute_code
